@@ -39,6 +39,8 @@ class Opts:
         self.mult_resources = True
         self.mult_under_any_rep = False
         self.p_create_links = 0.3
+        self.leaf_inputs = [0, 1, 1, 1, 2]
+        self.p_type_override = 0.1
         self.size_thresholds = (0.3, 0.55, 0.65)   # unsized | fresh symbol | repeated symbol | (constant/compound when the incoming size is known)
         self.qubit_mode = False     # generate local_ancillae / positive sizes for the highwater property
         self.__dict__.update(kw)
@@ -105,7 +107,7 @@ def gen_expr(rng, syms, opts, depth=2):
 # ------------------------------------------------------------------------------------------------
 # structure (bottom-up), sizes (top-down)
 def _leaf(rng, name, opts):
-    n_in = rng.choice([0, 1, 1, 1, 2])
+    n_in = rng.choice(opts.leaf_inputs)
     n_out = rng.choice([0, 1, 1, 1, 2]) if n_in else rng.choice([0, 1])
     ports = [{"name": f"in_{i}", "direction": "input", "size": None} for i in range(n_in)]
     ports += [{"name": f"out_{i}", "direction": "output", "size": None} for i in range(n_out)]
@@ -224,7 +226,10 @@ def _decorate(rng, node, opts, is_root, under_rep=False, no_mult=False):
         cand = [s for s in POOL if s not in scope] + [f"v{i}"]
         v = rng.choice(cand)
         for _ in range(20):
-            t = gen_expr(rng, scope, opts, 1)
+            # locals stay positive (they feed counts, ratios, sizes); resources may use the full language
+            t = gen_poly(rng, scope, 1, positive=True)
+            if rng.random() < 0.2:
+                t = E.app("ceiling", E.bin_("/", t, E.num(rng.choice([2, 3]))))
             if _generic(rng, t):
                 break
         else:
@@ -259,6 +264,7 @@ def _decorate(rng, node, opts, is_root, under_rep=False, no_mult=False):
         for ch in node["children"]:
             for r in _all_resources_after_propagation(ch):
                 child_res.setdefault(r, []).append(ch["name"])
+        all_types = ["additive", "multiplicative", "qubits", "other"]
         names = [r for r in RES if ((opts.mult_resources and not no_mult) or RES[r] != "multiplicative")]
         if under_rep:
             names = [r for r in names if RES[r] in ("additive", "multiplicative")]
@@ -269,7 +275,10 @@ def _decorate(rng, node, opts, is_root, under_rep=False, no_mult=False):
                 val = gen_expr(rng, scope, opts, 2)
                 if refs and rng.random() < 0.7:
                     val = E.bin_("+", val, E.bin_("*", E.num(rng.randint(1, 3)), E.sym(rng.choice(refs))))
-                node["resources"].append({"name": rname, "type": RES[rname], "value": val})
+                ty = RES[rname]
+                if not under_rep and not no_mult and rng.random() < opts.p_type_override:
+                    ty = rng.choice(all_types)     # mixed typing: same name, different type than elsewhere
+                node["resources"].append({"name": rname, "type": ty, "value": val})
         if opts.qubit_mode and rng.random() < 0.5 and not under_rep:
             node["resources"].append({"name": "local_ancillae", "type": "qubits",
                                       "value": gen_poly(rng, scope, 1, positive=True)})
@@ -283,12 +292,17 @@ def _is_linked(node, path, param):
 
 
 def _all_resources_after_propagation(node):
-    """names of additive/multiplicative resources the node will have after propagate_child_resources"""
-    out = {r["name"] for r in node["resources"]}
+    """name -> type of the resources the node will have after propagate_child_resources"""
+    out = {r["name"]: r["type"] for r in node["resources"]}
+    add, mul = {}, {}
     for ch in node["children"]:
-        for r in _all_resources_after_propagation(ch):
-            if RES.get(r) in ("additive", "multiplicative"):
-                out.add(r)
+        for r, ty in _all_resources_after_propagation(ch).items():
+            if ty == "additive":
+                add[r] = ty
+            elif ty == "multiplicative":
+                mul[r] = ty
+    for r, ty in {**add, **mul}.items():
+        out.setdefault(r, ty)
     return out
 
 
